@@ -32,7 +32,7 @@ def chart(x):
     sc.add_transition(Transition(
         's', None, event='go',
         action="c = c + 1; send('m', s=c, hop=0); c = c + 1; send('d', s=c, hop=0, delay=1); "
-               "notify('note', s=c)"))
+               "notify('note', s=c); notify('sent', event=event)"))     # a user meta-event named like a piece of 'event sent'
     sc.add_transition(Transition('s', None, event='m', guard='event.hop == 0',
                                  action="c = c + 1; send('m', s=c, hop=1)"))
     sc.add_transition(Transition('s', None, event='m', guard='event.hop > 0', action='c = c + 0'))
@@ -133,6 +133,7 @@ class Ref:
             n.c += 1
             sends.append(('internal', 'd', n.c, 0, 1))
             sends.append(('meta', 'note', n.c, None, 0))
+            sends.append(('meta', 'sent', None, None, 0))
         elif name == 'm' and hop == 0:
             n.c += 1
             sends.append(('internal', 'm', n.c, 1, 0))
